@@ -598,3 +598,85 @@ def monitor(case):
         bad.append("final queue %r is not the untaken rest of %r" % (fin["q"], submitted))
     return bad, {"quiescent_points": st8["quiescent"], "submitted": len(submitted),
                  "serviced": sum(svc.values()), "cancelled": sum(cnc.values()), "left_queued": len(fin["q"])}
+
+
+# ----------------------------------------------------------------------------
+# static audit of the lock discipline (justifies "one critical section = one step")
+
+EXPECTED_CV_CALLS = {
+    "handler_thread": ["queue_cv.wait", "thread_exit_cv.notify"],
+    "set_thread_count": ["queue_cv.notify_all"],
+    "add_task": ["queue_cv.notify"],
+    "shutdown": ["thread_exit_cv.wait", "queue_cv.notify_all"],
+}
+
+
+def audit():
+    """Parses waitress/task.py.  Returns (problems, signature): every access to
+    self.queue / self.threads / self.stop_count / self.active_count (or to a
+    local alias `x = self.<shared>`) in a method of ThreadedTaskDispatcher other
+    than __init__ must be lexically inside `with self.lock:`; the calls on the two
+    condition variables must be the ones the model was written against; the
+    call task.service() must be outside the lock and task.cancel() inside."""
+    import waitress.task as wt
+
+    src = inspect.getsource(wt)
+    tree = ast.parse(src)
+    cls = [n for n in tree.body if isinstance(n, ast.ClassDef) and n.name == "ThreadedTaskDispatcher"]
+    problems = []
+    sig = {}
+    if not cls:
+        return ["class ThreadedTaskDispatcher not found"], sig
+    for fn in cls[0].body:
+        if not isinstance(fn, ast.FunctionDef) or fn.name == "__init__":
+            continue
+        aliases = set()
+        cv_calls = []
+        task_calls = []
+
+        def is_self_attr(n, names):
+            return (isinstance(n, ast.Attribute) and isinstance(n.value, ast.Name)
+                    and n.value.id == "self" and n.attr in names)
+
+        def walk(node, locked):
+            if isinstance(node, ast.With):
+                lk = any(is_self_attr(it.context_expr, ("lock",)) for it in node.items)
+                for it in node.items:
+                    walk(it.context_expr, locked)
+                for b in node.body:
+                    walk(b, locked or lk)
+                return
+            if isinstance(node, ast.Assign) and len(node.targets) == 1 and isinstance(node.targets[0], ast.Name) \
+                    and is_self_attr(node.value, SHARED):
+                aliases.add(node.targets[0].id)   # taking a reference is not an access to the content
+                return
+            if is_self_attr(node, SHARED) and not locked:
+                problems.append("%s line %d: self.%s accessed outside `with self.lock`" % (fn.name, node.lineno, node.attr))
+            if isinstance(node, ast.Name) and node.id in aliases and not locked:
+                problems.append("%s line %d: alias %s of a shared attribute used outside `with self.lock`" % (fn.name, node.lineno, node.id))
+            if isinstance(node, ast.Call) and isinstance(node.func, ast.Attribute):
+                f = node.func
+                if is_self_attr(f.value, ("queue_cv", "thread_exit_cv")):
+                    cv_calls.append("%s.%s" % (f.value.attr, f.attr))
+                    if not locked:
+                        problems.append("%s line %d: %s.%s() outside the lock" % (fn.name, node.lineno, f.value.attr, f.attr))
+                if isinstance(f.value, ast.Name) and f.value.id == "task" and f.attr in ("service", "cancel"):
+                    task_calls.append((f.attr, locked))
+            for ch in ast.iter_child_nodes(node):
+                walk(ch, locked)
+
+        for st in fn.body:
+            walk(st, False)
+        sig[fn.name] = {"cv": cv_calls, "task": task_calls}
+        if fn.name in EXPECTED_CV_CALLS and cv_calls != EXPECTED_CV_CALLS[fn.name]:
+            problems.append("%s: condition-variable calls %r, the model was written against %r"
+                            % (fn.name, cv_calls, EXPECTED_CV_CALLS[fn.name]))
+        for name, locked in task_calls:
+            if name == "service" and locked:
+                problems.append("%s: task.service() is called while holding the lock" % fn.name)
+            if name == "cancel" and not locked:
+                problems.append("%s: task.cancel() is called outside the lock" % fn.name)
+    for m in EXPECTED_CV_CALLS:
+        if m not in sig:
+            problems.append("method %s not found" % m)
+    return problems, sig
